@@ -10,9 +10,10 @@
          find_id3v1   = find_id3v1(start) + the length test of ParseID3v1 (window of the last 128+3 bytes; no tag
                         when the file ends with an APEv2 footer; FIRST b"TAG", not the one inside b"APETAGEX",
                         not before file offset `start`, tag length 124..128)
-         prepare_data = ID3._prepare_data (needed, PaddingInfo(available - needed, trailing_size), negative
-                        = the bytes behind the old tag), negative callback result -> error,
+         prepare_data = ID3._prepare_data (needed, PaddingInfo(available - needed, trailing_size = the bytes behind
+                        the old tag), negative callback result -> error,
                         BitPaddedInt.to_str(new_size - 10, width=4), zero fill)
+         id3_save_prog= the same step as a program over the file monad (regenerated insert_bytes / delete_bytes)
          id3f_save    = ID3.save (old size from the header, insert_bytes / delete_bytes + write at 0 = splice at
                         offset 0, then __save_v1(f, v1, new_size)),   id3f_delete = module-level delete(f, True, True)
      - STRICT, independent readers written from the format layout: parse_tag / walk_frames (frame-header
